@@ -51,6 +51,28 @@ pub fn guard<T>(f: impl FnOnce() -> T) -> Result<T, String> {
     }
 }
 
+
+// ------------------------------------------------------------------ logging on
+/// A logger that accepts everything and discards it. With a logger installed at the most verbose
+/// level every `log::debug!(...)`/`trace!(...)` in the engine evaluates its arguments, as it does in
+/// a client that has logging switched on.
+struct DevNull;
+impl log::Log for DevNull {
+    fn enabled(&self, _: &log::Metadata) -> bool {
+        true
+    }
+    fn log(&self, record: &log::Record) {
+        // format the message (that is where argument expressions run), then drop it
+        let _ = format!("{}", record.args());
+    }
+    fn flush(&self) {}
+}
+static DEVNULL: DevNull = DevNull;
+pub fn enable_logging() {
+    let _ = log::set_logger(&DEVNULL);
+    log::set_max_level(log::LevelFilter::Trace);
+}
+
 // ------------------------------------------------------------------ failure
 
 #[derive(Clone, Debug)]
